@@ -922,6 +922,31 @@ def stateful_generator(line, cells):
     return out
 
 
+def _first_rising(values):
+    shifted = values[1:]
+    size = values.__len__
+    for i in range(len(shifted)):
+        if values[i] is None:
+            continue
+        if not shifted[i] > values[i]:
+            continue
+        return i
+    raise ValueError(f"no rise in {values}")
+
+
+def search_helper(rows):
+    out = []
+    for row in rows:
+        while len(row) > 2:
+            size = row.__len__
+            i = _first_rising(row)
+            out.append(size())
+            out.append((i, row[i]))
+            row = row[:i] + row[i + 1:]
+        out.append(tuple(row))
+    return out
+
+
 def _lookup(table, key):
     try:
         return table[key]
@@ -1320,6 +1345,7 @@ CASES = {
     'projected_comprehension': [([1, None, 3],), ([],)],
     'projected_loop': [([1, None, 3],), ([],)],
     'stateful_generator': [([1, 2, 3], {2: {2, 3}, 1: {1, 2}}), ([], {}), ([1], {1: set()})],
+    'search_helper': [([[1, 2, 3], [3, 1, 2, 5]],), ([[3, 2, 1]],), ([],)],
     'inline_tail': [({'a': 1, 2: 'two'}, 'a'), ({'a': 1, 2: 'two'}, '2'), ({}, 'z')],
     'inline_statement': [(2,), (0,)],
     'inline_names_do_not_clash': [([1, 2],), ([],)],
